@@ -205,6 +205,23 @@ func (DidOracle) Step(si *engine.StepInfo) []engine.Finding {
 			out = append(out, fd("C17", "payment-account-unbound", "", fmt.Sprintf("%s unbound %s, the payment account of %s", si.Op.Label, w.NameOf(pre.PayAddr[d]), short1(d))))
 		}
 	}
+	// a key rotation of one DID leaves the records of every other DID alone (whether a malformed list is accepted is
+	// not the property's concern; what it does to the registry is, through the state clauses)
+	if did := si.Op.Meta["did"]; did != "" {
+		for _, d := range sortedKeys(pre.Lists) {
+			if d == did {
+				continue
+			}
+			same := len(pre.Lists[d]) == len(post.Lists[d])
+			for i := 0; same && i < len(pre.Lists[d]); i++ {
+				ad := pre.Lists[d][i]
+				same = post.Lists[d][i] == ad && pre.AccIds[ad] == post.AccIds[ad] && pre.Auths[ad] == post.Auths[ad] && pre.Dids[pre.AccIds[ad]] == post.Dids[pre.AccIds[ad]]
+			}
+			if !same {
+				out = append(out, fd("C17", "rotation-touched-other-did", "", fmt.Sprintf("%s changed the account records of %s", si.Op.Label, short1(d))))
+			}
+		}
+	}
 	// a key DID's payment address is set only by that address itself
 	for _, d := range sortedKeys(post.PayAddr) {
 		if strings.HasPrefix(d, "did:sid:") {
@@ -326,7 +343,46 @@ func didOps(w *world.World, ctx sdk.Context, tier string) []engine.Op {
 				}
 				for _, ci := range []int{world.W, world.X} {
 					m := &didtypes.MsgUpdate{Creator: w.A(ci).S(), Did: sd.Did, NewDocId: newDoc, Keys: newKeys, Timestamp: now, UpdateAccountAuth: up, RemoveAccountDid: rm, PastSeed: fmt.Sprintf("seed%d", len(vers.VersionList))}
-					out = append(out, Tx("rotate", fmt.Sprintf("rotate(%s,by=%s,remove=%s)", sd.Name, didNames[ci], maskStr(l.AccountDids, mask)), m))
+					op := Tx("rotate", fmt.Sprintf("rotate(%s,by=%s,remove=%s)", sd.Name, didNames[ci], maskStr(l.AccountDids, mask)), m)
+					op.Meta = map[string]string{"did": sd.Did}
+					out = append(out, op)
+					// malformed partitions: an entry that belongs to the other DID smuggled into either list, an own entry
+					// named twice, an own entry left out
+					var foreign string
+					if ol, ok := k.GetAccountList(ctx, other.Did); ok && len(ol.AccountDids) > 0 {
+						foreign = ol.AccountDids[0]
+					}
+					bad := map[string]func(m *didtypes.MsgUpdate) bool{
+						"foreign-removed": func(m *didtypes.MsgUpdate) bool {
+							m.RemoveAccountDid = append(append([]string{}, rm...), foreign)
+							return foreign != ""
+						},
+						"foreign-updated": func(m *didtypes.MsgUpdate) bool {
+							m.UpdateAccountAuth = append(append([]*didtypes.AccountAuth{}, up...), &didtypes.AccountAuth{AccountDid: foreign, AccountEncryptedSeed: "s3", SidEncryptedAccount: "e3"})
+							return foreign != ""
+						},
+						"own-twice": func(m *didtypes.MsgUpdate) bool {
+							m.RemoveAccountDid = append(append([]string{}, rm...), l.AccountDids[0])
+							return true
+						},
+						"own-left-out": func(m *didtypes.MsgUpdate) bool {
+							if len(rm) > 0 {
+								m.RemoveAccountDid = rm[1:]
+							} else {
+								m.UpdateAccountAuth = up[1:]
+							}
+							return true
+						},
+					}
+					for _, bn := range sortedKeys(bad) {
+						bm := *m
+						if !bad[bn](&bm) {
+							continue
+						}
+						bop := Tx("rotate-bad", fmt.Sprintf("rotate-bad(%s,%s,by=%s,remove=%s)", bn, sd.Name, didNames[ci], maskStr(l.AccountDids, mask)), &bm)
+						bop.Meta = map[string]string{"did": sd.Did}
+						out = append(out, bop)
+					}
 				}
 			}
 		}
